@@ -6,7 +6,7 @@ from vf.props import track_common as tc
 LEVEL = "exploration"
 RULE = ("simulated scenes that satisfy the premise by construction (asserted per history): 1-5 animals whose bodies (>=30 px, bbox area >= 0.6 b^2) stay within "
         "0.25 b of fixed centres >= 3.5 b apart, per-frame step <= 0.05 b, random per-frame detection order, absences covering fewer than `window` non-empty frames, "
-        "newcomers only in frames where every previously seen animal is detected, scores above the new-track threshold; crossed with every tracker configuration "
+        "newcomers only in frames where every previously seen animal is detected (a quarter of the non-IoU scenes: jumps of up to 1.1 b per frame between animals >= 12 b apart), scores above the new-track threshold; crossed with every tracker configuration "
         "(2 candidate methods x 2 matchers x 4 feature/score pairs (keypoints+oks, centroids+euclid, bboxes+iou, keypoints+euclid) x 2 reductions x window{1,2,3,5} x threshold{0,0.5}). non-trivial = >=2 animals with an order change, "
         "absence or newcomer; distinct by (presence pattern, order pattern hash, configuration)")
 ASSUMPTIONS = ["all keypoints visible (the premise is about separation and motion)", "a fresh Tracker per history",
@@ -29,7 +29,14 @@ def gen_scene(r, cfg):
     pose[0] = (0, 0)
     pose[1] = (b, b * r.uniform(0.6, 1.0))
     D = 3.5 * b + float(r.uniform(0, 2 * b))
+    # fast regime: jumps of up to 1.1 body sizes per frame between animals >= 12 body sizes apart (still "far apart compared with how far they move");
+    # not for IoU, which needs overlapping boxes between sightings
+    fast = bool(cfg["scoring_method"] != "iou" and r.random() < 0.25)
+    if fast:
+        D = 12.0 * b + float(r.uniform(0, 4 * b))
     layout = str(r.choice(["grid", "random", "staircase", "row"]))
+    if fast and layout == "staircase":
+        layout = "row"
     if layout == "grid":
         cols = int(np.ceil(np.sqrt(K)))
         slots = r.permutation(cols * cols)[:K]
@@ -79,11 +86,14 @@ def gen_scene(r, cfg):
         dets = []
         for a in sorted(present):
             c = centres[a] + amp[a] * np.array([np.cos(phase[a] + omega[a] * f), np.sin(phase[a] + omega[a] * f)])
+            if fast:
+                ang, rad = r.uniform(0, 2 * np.pi), 0.55 * b * np.sqrt(r.random())
+                c = centres[a] + rad * np.array([np.cos(ang), np.sin(ang)])
             dets.append({"id": int(a), "pts": (pose + c).tolist(), "score": score})
         order = r.permutation(len(dets))
         frames.append([dets[j] for j in order])
         presence.append(sorted(present))
-    premise = {"b": b, "D": D, "step": step, "max_amp": float(amp.max()), "window": window}
+    premise = {"b": b, "D": D, "step": step, "max_amp": float(amp.max()), "window": window, "fast": fast}
     return frames, presence, premise
 
 
@@ -100,10 +110,10 @@ def assert_premise(frames, premise, window):
         cs = {d["id"]: np.mean(np.asarray(d["pts"]), 0) for d in dets}
         for a, c in cs.items():
             for b_, c2 in cs.items():
-                if a < b_ and np.hypot(*(c - c2)) < 3.0 * premise["b"]:
-                    return "animals closer than 3 body sizes"
-            if a in pos and np.hypot(*(c - pos[a][1])) > 0.5 * premise["b"] + 1e-9:
-                return "animal moved more than half a body size between sightings"
+                if a < b_ and np.hypot(*(c - c2)) < (10.0 if premise.get("fast") else 3.0) * premise["b"]:
+                    return "animals closer than 3 (fast regime: 10) body sizes"
+            if a in pos and np.hypot(*(c - pos[a][1])) > (1.1 if premise.get("fast") else 0.5) * premise["b"] + 1e-9:
+                return "animal moved more than half a (fast regime: 1.1) body size between sightings"
             pos[a] = (f, c)
         if ids:
             for a in seen | ids:
@@ -145,6 +155,8 @@ def cases(ctx):
 
 def check(ctx, case):
     cfg, frames = case["cfg"], case["frames"]
+    if case["premise"].get("fast"):
+        ctx.count("fast_histories")
     bad = assert_premise(frames, case["premise"], cfg["window_size"])
     if bad is not None:
         ctx.count("generator_premise_rejections")
